@@ -34,6 +34,12 @@ Contract clauses, evaluated after EVERY operation of every history (C/D/E as `en
      persistent objects, noted (weakly) at the start of the history and after every commit / rollback, plus one such note per open SAVEPOINT
      taken right after `begin_nested()` (a stack that is popped by release / rollback of the innermost SAVEPOINT and emptied by commit /
      rollback).  Objects first seen later in the transaction are not judged by R.
+  P  the contract of `Session._register_persistent` that the proof part uses (contracts/session_register.py), evaluated at every real call made by
+     a flush of these histories: the assumed PRECONDITION (a flushed state is bound in the identity map under no key but its own; every flushed
+     state's key is None or a non-empty tuple; the flushed-states set and the transaction's key-switch dictionary are not the identity map's own
+     containers) and the proved POSTCONDITIONS (every live flushed state carries the identity key of its current primary key, that key is bound in
+     the identity map to a flushed state carrying it, no flushed state is left bound under another key, an existing key-switch entry keeps its
+     first original key and a new one records the key the state had before the flush)
   X  an operation raises only sqlalchemy.exc.SQLAlchemyError subclasses (the session is then rolled back and the history continues)
 """
 import gc
@@ -96,7 +102,51 @@ class Hist:
         self.rolled_back = False
         self.closed_savepoint = None
         self.fails = []
-        self.stats = dict(get_nosql=0, get_nosql_token=0, loads=0, add_conflict=0, raised=0, savepoint_released=0, savepoint_rolled_back=0, frame_checks=0)
+        self._wrap_register_persistent()
+        self.stats = dict(register_persistent_calls=0, get_nosql=0, get_nosql_token=0, loads=0, add_conflict=0, raised=0, savepoint_released=0, savepoint_rolled_back=0, frame_checks=0)
+
+    # ---- clause P: run-time contract of Session._register_persistent at its real calls
+    def _wrap_register_persistent(self):
+        s, real = self.s, self.s._register_persistent
+
+        def stale(states, when):
+            d = s.identity_map._dict
+            for k, st in list(d.items()):
+                if st in states and st.key != k:
+                    self.fails.append(f"P: {when} _register_persistent a flushed state with key {st.key and _kd(st.key)} is bound in the identity map under {_kd(k)}")
+
+        def checked(states):
+            self.stats["register_persistent_calls"] += 1
+            trans = s._transaction
+            if trans is None or states is s.identity_map._modified or trans._key_switches is s.identity_map._dict:
+                self.fails.append("P: precondition of _register_persistent (transaction present, containers not aliased) does not hold at a real call")
+                return real(states)
+            for st in states:
+                if not (st.key is None or (isinstance(st.key, tuple) and st.key)):
+                    self.fails.append(f"P: precondition: a flushed state has key {st.key!r}")
+            stale(states, "before")
+            before = {st: st.key for st in states}
+            ks0 = dict(trans._key_switches)
+            real(states)
+            for st in states:
+                if st.obj() is not None:
+                    ik = st.mapper._identity_key_from_state(st)
+                    if st.key != ik:
+                        self.fails.append(f"P: after _register_persistent a live flushed state has key {st.key and _kd(st.key)}, its primary key gives {_kd(ik)}")
+                    cur = s.identity_map._dict.get(st.key)
+                    if cur is None or cur not in states or cur.key != st.key:
+                        self.fails.append(f"P: after _register_persistent key {st.key and _kd(st.key)} of a live flushed state is not bound to a flushed state carrying it")
+            stale(states, "after")
+            for st, (orig, _new) in trans._key_switches.items():
+                if st in ks0:
+                    if orig != ks0[st][0]:
+                        self.fails.append("P: a second primary-key switch replaced the first original key in _key_switches")
+                elif st not in before or orig != before[st]:
+                    self.fails.append("P: a new _key_switches entry does not record the key the state had before the flush")
+            for st in ks0:
+                if st not in trans._key_switches:
+                    self.fails.append("P: _register_persistent dropped a _key_switches entry")
+        s._register_persistent = checked
 
     # ---- clauses
     def handed(self, objs, what, token=False):
@@ -382,7 +432,7 @@ def _worker(job):
         gc.freeze()
     res = dict(evaluations=0, nontrivial=0, failures=[], samples=[], skipped_prefix_already_broken=0, get_without_sql=0, get_with_token_without_sql=0, add_conflicts=0,
                operations_raising_documented_errors=0, histories_with_identity_tokens=0, timeouts=[], skipped_equal_to_a_shorter_history=0,
-               histories_releasing_a_savepoint=0, histories_rolling_back_to_a_savepoint=0, frame_checks=0, savepoint_shapes=set())
+               histories_releasing_a_savepoint=0, histories_rolling_back_to_a_savepoint=0, frame_checks=0, savepoint_shapes=set(), register_persistent_calls=0)
     for idxs in H.job_sequences(job.get("catalogue", len(OPS)), job):
         names = [OPS[k] for k in idxs]
         if redundant(names):
@@ -401,6 +451,7 @@ def _worker(job):
         res["histories_releasing_a_savepoint"] += bool(st["savepoint_released"])
         res["histories_rolling_back_to_a_savepoint"] += bool(st["savepoint_rolled_back"])
         res["frame_checks"] += st["frame_checks"]
+        res["register_persistent_calls"] += st["register_persistent_calls"]
         if st["savepoint_released"] or st["savepoint_rolled_back"]:
             # what happened inside / after the SAVEPOINT block, as an abstract shape: the mutations between begin_nested and its closing
             # operation, how the block was closed, and how the enclosing transaction ended afterwards
@@ -480,7 +531,7 @@ def bounded(run, tier, seed):
             continue
         if n < 6:
             n += 1
-            run.violation("idmap-" + "-".join(d["ops"]), dict(function=FN, input=d, expected="clauses A-E, R, T, X hold after every operation", actual=d["broken"],
+            run.violation("idmap-" + "-".join(d["ops"]), dict(function=FN, input=d, expected="clauses A-E, P, R, T, X hold after every operation", actual=d["broken"],
                                                               reason="bounded run-time contract check (C34_bounded)"))
     samples = sorted(agg.get("samples", []), key=lambda x: (-x["add_conflicts"], -len(x["ops"]), x["ops"]))
     samples = samples[:3] + [x for x in samples[3:] if any(n in TOKEN_OPS for n in x["ops"])][:2]
@@ -488,7 +539,7 @@ def bounded(run, tier, seed):
         scope=f"one Session on SQLite :memory:, two rows (+ up to two added), the application starts holding row 1; ALL histories of length in {list(lengths)}{extra} over the "
               f"{len(OPS)} operations {OPS} (<load>_<token> = the load made with identity_token=<token>; begin_nested = SAVEPOINT, release_nested / rollback_nested = "
               f"commit / rollback of the innermost nested transaction; a history in which one of these two comes before any begin_nested equals a shorter history of the scope and is "
-              f"not run again); clauses A, B after every operation, C / D / E / T on every load / get / add, R on every rollback / rollback to a SAVEPOINT",
+              f"not run again); clauses A, B after every operation, C / D / E / T on every load / get / add, R on every rollback / rollback to a SAVEPOINT, P at every real call of Session._register_persistent",
         evaluations=agg["evaluations"], distinct_nontrivial=agg["nontrivial"],
         rule="every history of the scope is enumerated once; non-trivial = the history performed at least one load through the identity map, a get() answered "
              "without SQL, or an add() that hit the conflict branch (counted per history from the harness's own counters)",
@@ -499,7 +550,7 @@ def bounded(run, tier, seed):
         histories_releasing_a_savepoint=agg["histories_releasing_a_savepoint"], histories_rolling_back_to_a_savepoint=agg["histories_rolling_back_to_a_savepoint"],
         distinct_savepoint_block_shapes=len(agg.get("savepoint_shapes", set())),
         savepoint_block_shapes_rule="(mutations inside the first SAVEPOINT block, how the block was closed, how the enclosing transaction ended afterwards), distinct, counted",
-        rollback_frame_key_comparisons=agg["frame_checks"], skipped_equal_to_a_shorter_history=agg["skipped_equal_to_a_shorter_history"],
+        rollback_frame_key_comparisons=agg["frame_checks"], register_persistent_contract_evaluations_at_real_calls=agg["register_persistent_calls"], skipped_equal_to_a_shorter_history=agg["skipped_equal_to_a_shorter_history"],
         skipped_prefix_already_broken=agg["skipped_prefix_already_broken"], wall_s=round(time.time() - t0, 1))
     run.coverage.setdefault("bounded", []).append(blk)
     return blk
